@@ -63,6 +63,13 @@ type hist struct {
 func run(h *hist, seed int64) {
 	f := h.File
 	ctx, cancel := context.WithCancel(context.Background())
+	usesCancel := false
+	for _, c := range h.Plan {
+		usesCancel = usesCancel || c == cCancel || c == cCancel3
+	}
+	if !usesCancel && seed%2 == 0 {
+		ctx = context.Background() // a long-lived caller context that is never cancelled
+	}
 	if h.Mode == 1 && h.CtxKind == 1 {
 		cancel()
 		d := time.Duration(200+rand.New(rand.NewSource(seed)).Intn(2800)) * time.Microsecond
@@ -338,6 +345,10 @@ func xmlCase(rng *rand.Rand) *wire.Case {
 		c.Int(int64(cl.Code)).Int(cl.A).Int(cl.B)
 	}
 	c.Int(extra)
+	if left := pipesup.WaitNoPipeline(500 * time.Millisecond); left != 0 {
+		// the XML scanner is sequential: nothing it (or its constructor) started may be alive
+		c.OracleFail = fmt.Sprintf("%d goroutine(s) with scanner-package frames alive after the XML history (context not necessarily cancelled)", left)
+	}
 	c.Desc = map[string]interface{}{"xml_nodes": n, "then_an_element_that_fails_to_decode": bad, "calls(code,a,b)": calls, "bytes_pulled_after_stop": extra, "doc_bytes": len(doc)}
 	return c
 }
@@ -786,6 +797,12 @@ func main() {
 		}
 		c := pbfCase(h)
 		w.Add(c)
+		if h.Leaked != 0 {
+			// a goroutine of the scanner survives: every further history would wait out the grace
+			// period again; this observation is enough
+			aborted = true
+			break
+		}
 		w.Count(fmt.Sprintf("procs:%d", bucket(procs)))
 		w.Count(fmt.Sprintf("rac:%d", h.Rac))
 		w.Count(fmt.Sprintf("filter:%d", h.Filter))
